@@ -70,6 +70,7 @@ type Exec struct {
 	rtypeUsed       map[int]types.Type
 	inlined         map[string]int
 	usedContracts   map[string]bool
+	metaClauses     map[string]bool
 	assignAll       bool
 	qcount          int
 	solv            *Solvers
@@ -105,8 +106,10 @@ func shortFile(f string) string {
 }
 
 func (x *Exec) addObl(st *State, kind, label string, goal Term, pos, detail string) {
-	if goal.IsTrue() {
-		// trivially true goals are still counted (discharged syntactically)
+	if !goal.IsTrue() && strings.HasPrefix(goal.S, "(=> ") && refutedAntecedent(st, goal.S) {
+		// the antecedent contradicts a literal equality on the path (e.g. another arm of a type
+		// switch): discharged syntactically
+		goal = TTrue
 	}
 	o := &Obligation{
 		Name: shortKey(x.key) + "#" + kind + ":" + label, Func: x.key, Kind: kind, Label: label, Rank: x.rank,
@@ -256,6 +259,17 @@ func (x *Exec) execFrom(st *State, b *ssa.BasicBlock, idx int) {
 			if c.IsFalse() {
 				x.execBlock(st, b, b.Succs[1])
 				return
+			}
+			// a condition already decided on this path (same term assumed or refuted) does not fork
+			if st.pcSet != nil {
+				if st.pcSet[c.S] {
+					x.execBlock(st, b, b.Succs[0])
+					return
+				}
+				if st.pcSet[Not(c).S] {
+					x.execBlock(st, b, b.Succs[1])
+					return
+				}
 			}
 			x.paths++
 			if traceForks {
@@ -564,6 +578,11 @@ func (x *Exec) unop(st *State, v *ssa.UnOp) Value {
 				return x.rtypeValue(st, t)
 			}
 		}
+		if p.castElem != nil {
+			q := p
+			q.castElem = nil
+			return x.typedView(x.loadPtr(st, q).(SliceV), p.castElem)
+		}
 		return x.loadPtr(st, p)
 	case token.NOT:
 		return Scalar{Not(a.(Scalar).T)}
@@ -851,15 +870,40 @@ func (x *Exec) convert(st *State, v Value, from, to types.Type, pos string) Valu
 		if fs == ts {
 			return a
 		}
+		if ts == SInt && strings.HasPrefix(a.T.S, "(conv_Int_"+smtSortName(fs)+" ") {
+			// int(T(x)) for an int-valued x that came from a size/length: keep the integer
+			return Scalar{Term{a.T.S[len("(conv_Int_"+smtSortName(fs)+" ") : len(a.T.S)-1], SInt}}
+		}
 		name := "conv_" + smtSortName(fs) + "_" + smtSortName(ts)
 		x.decls.Fun(name, []string{fs}, ts)
 		return Scalar{App(ts, name, a.T)}
 	case PtrV:
-		// unsafe.Pointer round trips
+		// unsafe.Pointer round trips; *[]U -> unsafe.Pointer -> *[]T is a typed view
+		if pt, ok := to.Underlying().(*types.Pointer); ok {
+			if ts, ok := pt.Elem().Underlying().(*types.Slice); ok {
+				cur := typeAtPath(a.Root, a.Path)
+				if us, ok := cur.Underlying().(*types.Slice); ok && !types.Identical(us.Elem(), ts.Elem()) {
+					a.castElem = ts.Elem()
+				}
+			}
+		}
 		return a
 	}
 	x.unsupportedf("conversion %s -> %s at %s", from, to, pos)
 	return nil
+}
+
+var stdSizes = types.SizesFor("gc", "amd64")
+
+// typedView reinterprets a slice of U as a slice of T over the same array (storage.Header views).
+func (x *Exec) typedView(b SliceV, elem types.Type) SliceV {
+	from := stdSizes.Sizeof(b.Elem)
+	to := stdSizes.Sizeof(elem)
+	if from <= 0 || to <= 0 || to%from != 0 {
+		x.unsupportedf("typed view from %s to %s", b.Elem, elem)
+	}
+	k := IntLit(to / from)
+	return SliceV{Arr: b.Arr, Off: QuoInt(b.Off, k), Len: QuoInt(b.Len, k), Cap: QuoInt(b.Cap, k), Elem: elem}
 }
 
 func (x *Exec) indexAddr(st *State, v *ssa.IndexAddr) Value {
@@ -989,7 +1033,7 @@ func (x *Exec) typeAssert(st *State, v *ssa.TypeAssert) Value {
 func (x *Exec) rtypeValue(st *State, t types.Type) Value {
 	id := x.P.rtypeID(t)
 	x.rtypeUsed[id] = t
-	return IfaceV{IntLit(int64(x.P.typeTag(types.NewPointer(types.Typ[types.Invalid])))), IntLit(int64(-id))}
+	return IfaceV{IntLit(int64(x.P.typeTag(types.NewPointer(types.Typ[types.Invalid])))), IntLit(int64(id))}
 }
 
 // ---------- maps (map[int]T as arrays) ----------
@@ -1032,4 +1076,41 @@ func (x *Exec) mapLookup(st *State, v *ssa.Lookup) Value {
 		return TupleV{[]Value{val, Scalar{present}}}
 	}
 	return val
+}
+
+
+// knownLits collects path facts of the form (= sym literal).
+func knownLits(st *State) map[string]string {
+	if st.litN == len(st.pc) && st.lits != nil {
+		return st.lits
+	}
+	m := map[string]Term{}
+	for _, f := range st.pc {
+		collectLitEqs(f, m)
+	}
+	out := make(map[string]string, len(m))
+	for k, v := range m {
+		out[k] = v.S
+	}
+	st.lits, st.litN = out, len(st.pc)
+	return out
+}
+
+// refutedAntecedent: goal is (=> A B) and some conjunct (= sym lit) of A contradicts a path fact.
+func refutedAntecedent(st *State, goal string) bool {
+	body := goal[4 : len(goal)-1]
+	e1 := sexprEnd(body, 0)
+	ante := strings.TrimSpace(body[:e1])
+	lits := map[string]Term{}
+	collectLitEqs(Term{ante, SBool}, lits)
+	if len(lits) == 0 {
+		return false
+	}
+	known := knownLits(st)
+	for sym, v := range lits {
+		if kv, ok := known[sym]; ok && kv != v.S {
+			return true
+		}
+	}
+	return false
 }
